@@ -321,3 +321,123 @@ package client
 //@ func (*Channel).registerSubChannelSettlement$1
 //@   requires chanWF(*c) && stateDecoded(cu.State) && nonNilBalances(*bals) && sameDims(chanState(*c).Balances, *bals)
 //@   ensures result ==> subSettleOK(*c, *id, *bals, cu.State)
+
+// ---------------------------------------------------------------------------
+// Gating of the own signature in responder role (C07) and single response / lock balance (C12)
+// ---------------------------------------------------------------------------
+
+// The update request kinds are a closed set; all carry a ChannelUpdateMsg (state, actor, sender's signature).
+//@ sealed ChannelUpdateProposal
+//@ pred reqState(req ChannelUpdateProposal) =
+//@   istype(req, "*ChannelUpdateMsg") ? as(req, "*ChannelUpdateMsg").ChannelUpdate.State :
+//@   (istype(req, "*VirtualChannelFundingProposalMsg") ? as(req, "*VirtualChannelFundingProposalMsg").ChannelUpdateMsg.ChannelUpdate.State :
+//@    as(req, "*VirtualChannelSettlementProposalMsg").ChannelUpdateMsg.ChannelUpdate.State)
+//@ pred reqActor(req ChannelUpdateProposal) =
+//@   istype(req, "*ChannelUpdateMsg") ? as(req, "*ChannelUpdateMsg").ChannelUpdate.ActorIdx :
+//@   (istype(req, "*VirtualChannelFundingProposalMsg") ? as(req, "*VirtualChannelFundingProposalMsg").ChannelUpdateMsg.ChannelUpdate.ActorIdx :
+//@    as(req, "*VirtualChannelSettlementProposalMsg").ChannelUpdateMsg.ChannelUpdate.ActorIdx)
+//@ pred reqSig(req ChannelUpdateProposal) =
+//@   istype(req, "*ChannelUpdateMsg") ? as(req, "*ChannelUpdateMsg").Sig :
+//@   (istype(req, "*VirtualChannelFundingProposalMsg") ? as(req, "*VirtualChannelFundingProposalMsg").ChannelUpdateMsg.Sig :
+//@    as(req, "*VirtualChannelSettlementProposalMsg").ChannelUpdateMsg.Sig)
+//@ pred reqDecoded(req ChannelUpdateProposal) = req != nil &&
+//@   (istype(req, "*ChannelUpdateMsg") ==> updDecoded(as(req, "*ChannelUpdateMsg"))) &&
+//@   (istype(req, "*VirtualChannelFundingProposalMsg") ==> fundPropDecoded(as(req, "*VirtualChannelFundingProposalMsg"))) &&
+//@   (istype(req, "*VirtualChannelSettlementProposalMsg") ==> settlePropDecoded(as(req, "*VirtualChannelSettlementProposalMsg")))
+
+//@ pred mach(c *Channel) = c.machine.StateMachine.machine
+// chanOK: a registered channel whose machine satisfies its invariant and is ready for an update (current state valid for the
+// parameters, version below 2^64-1): client state invariant, assumed.
+//@ pred chanOK(c *Channel) = chanWF(c) && c.client != nil && c.client.log != nil && smWF(c.machine.StateMachine) && stateWF(chanState(c)) &&
+//@   chanState(c).Version < 18446744073709551615 && allocFor(mach(c), chanState(c)) && len(mach(c).params.Parts) == 2 &&
+//@   c.subChannelFundings != nil && c.subChannelWithdrawals != nil && c.machine.pr != nil && c.statesPub != nil &&
+//@   (c.parent != nil ==> chanWF(c.parent) && c.parent.subChannelWithdrawals != nil && c.parent.subChannelFundings != nil)
+
+// peerSigOK: the signature verifies for the state against every address of participant idx.
+//@ pred peerSigOK(m *channel.machine, idx channel.Index, s *channel.State, sig wallet.Sig) =
+//@   forall b wallet.BackendID :: has(m.params.Parts[idx], b) ==> verifyOK(m.params.Parts[idx][b], s, sig)
+
+// updChecked: what handleUpdateReq establishes first for every request (CheckUpdate): valid successor of the current state
+// (generic rules, actor range, app rule) signed by the sender over exactly the proposed state.
+//@ pred updChecked(c *Channel, req ChannelUpdateProposal, pidx channel.Index) =
+//@   validSuccSM(c.machine.StateMachine, reqState(req), reqActor(req)) && peerSigOK(mach(c), pidx, reqState(req), reqSig(req))
+
+// ordinaryOK: the additional two-party rules of an ordinary update: the sender is the actor, locked funds untouched.
+//@ pred ordinaryOK(c *Channel, req ChannelUpdateProposal, pidx channel.Index) =
+//@   reqActor(req) == pidx && subAllocsEq(chanState(c).Locked, reqState(req).Locked)
+
+//@ func (*Channel).validTwoPartyUpdate
+//@   requires chanWF(c) && up.State != nil && nonNilLocked(up.State.Locked)
+//@   ensures result == nil <==> up.ActorIdx == sigIdx && subAllocsEq(chanState(c).Locked, up.State.Locked)
+
+// The user's update handler is entered only with a request that passed CheckUpdate and the two-party rules, with a responder
+// for exactly that request that has not answered yet.
+//@ interface UpdateHandler
+//@   method HandleUpdate
+//@     requires recv != nil && arg2 != nil && sent(arg2.done) == 0 && arg1.State == reqState(arg2.req) && arg1.ActorIdx == reqActor(arg2.req) &&
+//@              updChecked(arg2.channel, arg2.req, arg2.pidx) && ordinaryOK(arg2.channel, arg2.req, arg2.pidx)
+//@ end
+
+// An update interceptor (sub-channel funding/settlement awaited by this client) receives only requests that passed CheckUpdate
+// and its own filter. filterOK(ui, u): ui.filter(u) returned true; the filters are exactly the closures of
+// registerSubChannelFunding / registerSubChannelSettlement (side check: nothing else writes updateInterceptor.filter).
+//@ ghost func filterOK(ui *updateInterceptor, s *channel.State, actor channel.Index) bool
+//@ func (*updateInterceptors).Filter
+//@   trusted
+//@   requires interceptors != nil
+//@   ensures result1 ==> result0 != nil && filterOK(result0, u.State, u.ActorIdx)
+//@   ensures !result1 ==> result0 == nil
+//@ func (*updateInterceptor).HandleUpdate
+//@   trusted
+//@   requires ui != nil && r != nil && sent(r.done) == 0 && u.State == reqState(r.req) && u.ActorIdx == reqActor(r.req) &&
+//@            updChecked(r.channel, r.req, r.pidx) && filterOK(ui, u.State, u.ActorIdx)
+//@   modifies *
+
+// The responder: one answer per request (the done channel has capacity one and is read at most once).
+//@ func (*UpdateResponder).Accept
+//@   requires r != nil && sent(r.done) == 0 && r.channel != nil
+//@   modifies *
+//@   ensures sent(r.done) == 1 && held(&r.channel.machMtx) == old(held(&r.channel.machMtx)) && r.done == old(r.done) && r.channel == old(r.channel)
+//@ func (*UpdateResponder).Reject
+//@   requires r != nil && sent(r.done) == 0 && r.channel != nil
+//@   modifies *
+//@   ensures sent(r.done) == 1 && held(&r.channel.machMtx) == old(held(&r.channel.machMtx)) && r.done == old(r.done) && r.channel == old(r.channel)
+
+//@ interface ChannelUpdateProposal
+//@   method Base
+//@     requires recv != nil
+//@     ensures result != nil && result.ChannelUpdate.State == reqState(recv) && result.ChannelUpdate.ActorIdx == reqActor(recv) && result.Sig == reqSig(recv)
+//@ end
+
+// acceptUpdate creates the own signature (machine.Sig) only after machine.Update staged exactly the requested state - which it
+// does only for a valid successor of the current state - and machine.AddSig verified the sender's signature over that staged state.
+//@ func (*Channel).acceptUpdate
+//@   requires chanOK(c) && ctx != nil && reqDecoded(req) && pidx < 2 && mach(c).idx != pidx
+//@   modifies *
+//@   callsite (*machine).Sig : m == old(mach(c)) && m.stagingTX.State == old(reqState(req)) && m.phase == channel.Signing &&
+//@     old(mach(c).phase == channel.Acting && validSuccSM(c.machine.StateMachine, reqState(req), reqActor(req))) &&
+//@     m.stagingTX.Sigs[pidx] == old(reqSig(req)) && peerSigOK(m, pidx, m.stagingTX.State, m.stagingTX.Sigs[pidx])
+
+//@ func (*Channel).rejectUpdate
+//@   requires chanOK(c) && ctx != nil && reqDecoded(req)
+//@   modifies *
+
+// Sending on the channel connection: network effect only (fork-join over the peers through errgroup: out of the verified subset);
+// the connection object is well-formed by construction (newChannelConn).
+//@ func (*channelConn).Send
+//@   trusted
+//@   requires c != nil && msg != nil
+
+// Whether a channel is a sub-channel is a pure question about the (immutable) peer lists of it and its parent.
+//@ func (*Channel).IsSubChannel
+//@   requires chanWF(c) && (c.parent != nil ==> chanWF(c.parent))
+//@   ensures result ==> c.parent != nil
+
+// Registration of an awaited sub-channel settlement: stores a new interceptor under the sub-channel's id (map write under the
+// interceptors' lock; channels created inside): trusted frame.
+//@ func (*Channel).registerSubChannelSettlement
+//@   trusted
+//@   requires c != nil && c.subChannelWithdrawals != nil
+//@ func (*Channel).registerSubChannelFunding
+//@   trusted
+//@   requires c != nil && c.subChannelFundings != nil
